@@ -640,12 +640,15 @@ namespace cgi {
 			if(!remote_addr) {
 				booster::system::error_code e;
 				if(remote_ip_.empty()) {
-					remote_ip_ = socket_.remote_endpoint(e).ip();
+					// the peer may be gone already (connection reset), then there is
+					// no endpoint to take the address from
+					booster::aio::endpoint ep = socket_.remote_endpoint(e);
 					if(e) {
 						close();
 						h(e);
 						return;
 					}
+					remote_ip_ = ep.ip();
 				}
 				remote_addr=remote_ip_.c_str();
 			}
